@@ -416,6 +416,15 @@ class C15(Check):
                     bad(f"eq:raises-{type(e).__name__}", dict(params=p, error=str(e)))
             if describe(cfg) != before:
                 bad("modify:mutates-original", dict(params=p, delta=delta))
+            # structural equality: a modification that changed scales, edges, closed side or
+            # cosmology must not compare equal to the original (max_workers is not part of ==)
+            changed = [k for k in ("scales", "edges", "closed", "cosmology") if dg[k] != before[k]]
+            if changed:
+                try:
+                    if got == cfg or not (got != cfg):
+                        bad(f"eq:different-params-equal:{'+'.join(changed)}", dict(params=p, delta=delta))
+                except Exception as e:
+                    bad(f"eq:raises-{type(e).__name__}", dict(params=p, error=str(e)))
 
         out.append(result(HELD, cls=("custom" if "edges" in p else p["method"]) + "/" + p["unit"],
                           counters=counters, nontrivial=counters.get("modifications_compared", 0) > 0,
